@@ -247,7 +247,7 @@ pub fn cli_case(seed: u64, idx: usize, acc: &mut Acc) {
         // a document-less YAML file read as a slice is a recorded C02 finding
         let bytes = if src == Fmt::Yaml && crate::read::yaml::read_docs(&bytes).map(|d| d.is_empty()).unwrap_or(false) { b"a: 1\n".to_vec() } else { bytes };
         let detectable = xt::verif::detect_slice(&bytes).ok().flatten().map(Fmt::from_xt) == Some(src);
-        if i == 1 && detectable && rng.chance(1, 4) {
+        if i == 1 && detectable && rng.chance(1, 2) {
             stdin_bytes = bytes;
             names.push("-".into());
             continue;
@@ -271,7 +271,21 @@ pub fn cli_case(seed: u64, idx: usize, acc: &mut Acc) {
     }
     let mut argv: Vec<String> = vec!["-t".into(), to.name().into()];
     argv.extend(names.iter().cloned());
-    let all = run1(argv.clone(), &stdin_bytes);
+    // in the combined run standard input is, every other time, a regular file whose first bytes (two earlier
+    // documents) were consumed by someone else: the documents xt reads through '-' are those from the current offset
+    let all = if names.iter().any(|n| n == "-") && idx % 2 == 1 {
+        acc.count("cli_stdin_is_a_file_at_a_later_offset");
+        let prefix: &[u8] = match xt::verif::detect_slice(&stdin_bytes).ok().flatten().map(Fmt::from_xt) {
+            Some(Fmt::Yaml) => b"---\nconsumed: before\n---\nalso: consumed\n",
+            Some(Fmt::Msgpack) => b"\x81\xa1c\x01\x92\x01\x02",
+            _ => b"{\"consumed\": \"before\"}\n[1, 2]\n",
+        };
+        let mut whole = prefix.to_vec();
+        whole.extend_from_slice(&stdin_bytes);
+        procmon::run(Run { bin: &bin, argv: argv.clone(), cwd: sc.path(), stdin: StdinKind::FileAtOffset(whole, prefix.len() as u64), stdout: StdoutKind::Pipe, wall_secs: 60, cpu_secs: 20 })
+    } else {
+        run1(argv.clone(), &stdin_bytes)
+    };
     acc.evals += 1;
     acc.count("cli_multi_input_invocations");
     if matches!(all.status, Status::Timeout | Status::SpawnError(_)) {
@@ -311,7 +325,7 @@ pub fn run(ctx: &Ctx) -> i32 {
     let n_cli = ctx.size(400, 8000);
     let cli = crate::par::run(n_cli, 4, |i, acc| cli_case(seed, i, acc));
     acc.merge(cli);
-    let rule = format!("{} histories: N in {{0,1,2,3,4,5,17,300}} documents (scalars first, empty and large collections, strings padded so documents end at 8192/16384 +-2) distributed over 1-4 translate calls on one Translator, each call in its own source format (JSON/MessagePack/YAML, or TOML for one document), slice or reader under a schedule (one named-format reader in six also fails every 2nd-7th call with ErrorKind::Interrupted), explicit or detected, with every separator style the source allows (JSON none/blank/newlines; YAML '---', '--- value', '...'+'---', comments, blank lines, %YAML directives), targets JSON/MessagePack/YAML in turn; plus {} command-line invocations of the release binary over 2-4 input files in mixed formats (by extension or detected, one possibly on stdin) compared with separate invocations per file; distinct non-trivial = distinct (inputs, target) with >= 2 documents", n, n_cli);
+    let rule = format!("{} histories: N in {{0,1,2,3,4,5,17,300}} documents (scalars first, empty and large collections, strings padded so documents end at 8192/16384 +-2) distributed over 1-4 translate calls on one Translator, each call in its own source format (JSON/MessagePack/YAML, or TOML for one document), slice or reader under a schedule (one named-format reader in six also fails every 2nd-7th call with ErrorKind::Interrupted), explicit or detected, with every separator style the source allows (JSON none/blank/newlines; YAML '---', '--- value', '...'+'---', comments, blank lines, %YAML directives), targets JSON/MessagePack/YAML in turn; plus {} command-line invocations of the release binary over 2-4 input files in mixed formats (by extension or detected, one possibly on stdin - a pipe, or a regular file whose first documents were already consumed) compared with separate invocations per file; distinct non-trivial = distinct (inputs, target) with >= 2 documents", n, n_cli);
     ev::finish(
         Finish {
             ctx,
@@ -321,7 +335,7 @@ pub fn run(ctx: &Ctx) -> i32 {
             extra: serde_json::Map::new(),
             exhaustive: false,
             min_distinct: 500,
-            must_reach: vec![("cli_multi_input_invocations".into(), 100), ("framing_checked".into(), 1000), ("n_docs_300".into(), 10), ("n_docs_0".into(), 10), ("n_calls_3".into(), 10), ("histories_with_short_write_writer".into(), 1000), ("histories_with_an_interrupted_reader".into(), 500)],
+            must_reach: vec![("cli_multi_input_invocations".into(), 100), ("framing_checked".into(), 1000), ("n_docs_300".into(), 10), ("n_docs_0".into(), 10), ("n_calls_3".into(), 10), ("histories_with_short_write_writer".into(), 1000), ("histories_with_an_interrupted_reader".into(), 500), ("cli_stdin_is_a_file_at_a_later_offset".into(), 20)],
         },
         acc,
     )
